@@ -360,7 +360,7 @@ BASE_WEIGHTS = {
                 suspend=0.7, resume=1.5, unsol_cancel=0.25, late_reject=0.12, deliver=5.0),
     # lock-step: every action is a whole request/answer/delivery round, so order-ending
     # actions are made rarer to keep runs from ending after two or three steps
-    "c20a": dict(new=8.0, cancel=1.0, replace=4.0, handle=0.0, resolve=3.0, fill=4.0, expire=0.12,
+    "c20a": dict(new=8.0, cancel=0.6, replace=4.0, handle=0.0, resolve=3.0, fill=4.0, expire=0.12,
                  suspend=0.8, resume=2.0, unsol_cancel=0.12, late_reject=0.06, deliver=0.0),
 }
 NEVER_ZERO = ("new", "handle", "resolve", "deliver")
@@ -417,8 +417,8 @@ def make_config(seed, tier="quick", half="c17"):
         p_pend=r.choice([0.0, 0.3, 0.5, 0.5, 0.9]),
         p_hold=r.choice([0.0, 0.2, 0.3, 0.6]),
         p_reject=r.choice([0.1, 0.3, 0.3, 0.6]),
-        p_full_fill=r.choice([0.0, 0.05, 0.15, 0.4]),
-        settle_decision=r.choice(["accept", "accept", "reject"]),
+        p_full_fill=r.choice([0.0, 0.05, 0.15, 0.4] if half == "c17" else [0.0, 0.03, 0.1, 0.25]),
+        settle_decision="accept",  # a reject is always an explicit action of the trace
         pick=r.randint(0, 5),
         lenient_reject_orderid=r.random() < 0.5,
     )
